@@ -6,6 +6,15 @@ Require Import UFLV.Props.C23_syn.
 Ltac fin_true :=
   repeat first [ reflexivity | rewrite orb_true_r | rewrite orb_true_l | progress simpl ].
 
+Section FX.
+Variable cfn : mathfn -> bool.
+Variable cbs : bkind -> bool.
+Local Notation check := (C23_model.check cfn cbs).
+Local Notation checkc := (C23_model.checkc cfn cbs).
+Local Notation check_list := (C23_model.check_list cfn cbs).
+Local Notation ty_of := (C23_model.ty_of cfn cbs).
+Local Notation bad_site := (C23_model.bad_site cfn cbs).
+
 (* accepted => no ordering site anywhere has a complex (or untypable) operand *)
 Definition Pok (e : expr) : Prop :=
   forall e' t, check e = Some (e', t) -> existsb bad_site (sites e) = false.
@@ -26,11 +35,11 @@ Qed.
 Lemma bad_site_false a b a' ta b' tb :
   check a = Some (a', ta) -> check b = Some (b', tb) -> is_complex ta || is_complex tb = false ->
   bad_site (a, b) = false.
-Proof. intros E1 E2 E3. unfold bad_site, ty_of; simpl. rewrite E1, E2. exact E3. Qed.
+Proof. intros E1 E2 E3. unfold C23_model.bad_site, C23_model.ty_of; simpl. rewrite E1, E2. exact E3. Qed.
 Lemma bad_site_true a b a' ta b' tb :
   check a = Some (a', ta) -> check b = Some (b', tb) -> is_complex ta || is_complex tb = true ->
   bad_site (a, b) = true.
-Proof. intros E1 E2 E3. unfold bad_site, ty_of; simpl. rewrite E1, E2. exact E3. Qed.
+Proof. intros E1 E2 E3. unfold C23_model.bad_site, C23_model.ty_of; simpl. rewrite E1, E2. exact E3. Qed.
 
 Lemma ok_both : (forall e, Pok e) /\ (forall c, Qok c).
 Proof.
@@ -49,7 +58,6 @@ Proof.
     + dcheck. inv H. rewrite sites_ListTensor.
       eapply ok_list; [|exact E]. intros x Hx. apply IHe. rewrite size_ListTensor.
       apply In_size_list, Hx.
-    + destruct f; unf; dcheck; inv H; simpl; eapply IHe; try eassumption; simpl; lia.
   - intros c IHe IHc c' t H.
     destruct c; simpl in H; dcheck; inv H; simpl;
       try match goal with E : ordering _ = _ |- _ => rewrite E end; simpl; rewrite ?existsb_app';
@@ -103,7 +111,6 @@ Proof.
     + dnone; try discriminate H. change (existsb bad_site (sites_list es) = true).
       apply no_list; [|exact E]. intros x Hx. apply IHe. rewrite size_ListTensor.
       apply In_size_list, Hx.
-    + destruct f; unf; dnone; try discriminate H; simpl; apply IHe; try assumption; simpl; lia.
   - intros c IHe IHc H.
     destruct c; simpl in H; dnone; try discriminate H; simpl;
       try match goal with E : ordering _ = _ |- _ => rewrite E end; simpl; rewrite ?existsb_app';
@@ -122,11 +129,10 @@ Theorem C23_wrap : forall e e' t,
   check e = Some (e', t) -> forall a b, In (a, b) (sites e') -> wrapped a = true /\ wrapped b = true.
 Proof.
   intros e e' t H a b Hin.
-  pose proof (proj1 wrap_both e e' t H) as W.
+  pose proof (proj1 (wrap_both cfn cbs) e e' t H) as W.
   rewrite forallb_forall in W. specialize (W _ Hin). unfold wrapped_site in W; simpl in W.
   apply andb_true_iff in W. exact W.
 Qed.
-Print Assumptions C23_wrap.
 
 (* C23_reject: an ordering comparison / min / max anywhere in e with an operand of nodetype complex
    makes the whole check fail (ComplexComparisonError) *)
@@ -139,10 +145,9 @@ Proof.
   pose proof (proj1 ok_both e e' t E) as W.
   assert (X : existsb bad_site (sites e) = true).
   { apply existsb_exists. exists (a, b). split; [exact Hin|].
-    unfold bad_site; simpl. rewrite Ha, Hb. destruct Hc; subst; simpl; fin_true. }
+    unfold C23_model.bad_site; simpl. rewrite Ha, Hb. destruct Hc; subst; simpl; fin_true. }
   congruence.
 Qed.
-Print Assumptions C23_reject.
 
 (* ... and that is the only reason for rejecting *)
 Theorem C23_reject_only : forall e,
@@ -152,10 +157,11 @@ Theorem C23_reject_only : forall e,
 Proof.
   intros e H. pose proof (proj1 no_both e H) as W.
   apply existsb_exists in W. destruct W as [[a b] [Hin Hb]]. exists a, b. split; [exact Hin|].
-  unfold bad_site in Hb; simpl in Hb.
+  unfold C23_model.bad_site in Hb; simpl in Hb.
   destruct (ty_of a) as [[]|]; destruct (ty_of b) as [[]|]; simpl in Hb; try discriminate; auto.
 Qed.
-Print Assumptions C23_reject_only.
+
+End FX.
 
 (* ---- real mode ---- *)
 Definition Prm (e : expr) : Prop :=
@@ -232,9 +238,12 @@ Proof.
   intros H. destruct (remove e) as [e'|] eqn:E; [|reflexivity].
   destruct (Hs _ eq_refl) as [H1 _]. congruence.
 Qed.
-Print Assumptions C23_remove_reject_iff.
 
 (* the output of real mode contains no Conj / Real / Imag node and no complex literal *)
 Theorem C23_remove_clean : forall e e', remove e = Some e' -> cfree e' = true.
 Proof. intros e e' H. exact (proj2 (proj2 (proj1 rm_both e) _ H)). Qed.
+Print Assumptions C23_wrap.
+Print Assumptions C23_reject.
+Print Assumptions C23_reject_only.
+Print Assumptions C23_remove_reject_iff.
 Print Assumptions C23_remove_clean.
